@@ -7,7 +7,8 @@
 
    static   (i)  the text() function (documented, not XPath 1.0); concat (agrees, but the proofs do not cover it yet) -> ty_of
             (l)  an axis name that is not one of the eleven generators (AxOther), an unbound or empty prefix   -> deviate = None
-   dynamic  (j)  a prefixed attribute whose namespace is the candidate's in-scope default namespace       -> hazard
+   dynamic  (j)  the backend does not distinguish no namespace from the in-scope default namespace d of an element: a prefixed
+                 attribute test bound to d finds the plain attribute, an un-prefixed one finds {d}l when there is no plain l -> hazard
    Every other class of the original list ((a)-(h), (k), and (m) (n) (o) found later) was repaired in /repo and is
    inside in_subset now; findings.d/C06.json has the commits. *)
 From Delb.Base Require Import PyStr.
@@ -59,13 +60,13 @@ Definition pred_ok (m : nsmap) (e : expr) : bool :=
 (* ---- dynamic classes, decided on one candidate *)
 Definition tag_attrs (c : nd) : list attr := payload_attrs (ipayload (snd c)).
 (* (j) *)
-Definition attr_j (m : nsmap) (p : option str) (c : nd) : bool :=
-  match p with
-  | Some q => match ns_get m q, in_scope_default (ipayload (snd c)) with
-              | Some ns, Some d => is_tagnode c && negb (null ns) && str_eqb d ns
-              | _, _ => false
-              end
-  | None => false
+Definition attr_j (m : nsmap) (p : option str) (l : str) (c : nd) : bool :=
+  match (match p with Some q => ns_get m q | None => Some [] end), in_scope_default (ipayload (snd c)) with
+  | Some ns, Some d =>
+      let has n := match get_attr n l (tag_attrs c) with Some _ => true | None => false end in
+      is_tagnode c && ((negb (null ns) && str_eqb d ns)            (* @p:l finds the plain l *)
+                       || (null ns && negb (has []) && has d))     (* @l finds {d}l when there is no plain l (badd57c) *)
+  | _, _ => false
   end.
 Definition attr_of (m : nsmap) (p : option str) (l : str) (c : nd) : option str :=
   if is_tagnode c then get_attr (match p with Some q => opt_default [] (ns_get m q) | None => [] end) l (tag_attrs c) else None.
@@ -77,8 +78,8 @@ Definition attr_empty (m : nsmap) (p : option str) (l : str) (c : nd) : bool :=
 Fixpoint hazard (m : nsmap) (e : expr) (c : nd) : bool :=
   match e with
   | AnyValue _ => false
-  | AttributeValue p _ => attr_j m p c                                         (* (j) *)
-  | HasAttribute p _ => attr_j m p c
+  | AttributeValue p l => attr_j m p l c                                       (* (j) *)
+  | HasAttribute p l => attr_j m p l c
   | BooleanOperator o l r => hazard m l c || hazard m r c
   | Function name args =>
       (fix go (l : list expr) : bool := match l with [] => false | x :: r => hazard m x c || go r end) args
